@@ -276,10 +276,10 @@ MANIFEST = {
             'behaviour of a 5-6 cell heap, from both constructions (nothing stored yet / initial value), that '
             'clone-on-write keeps (1) every handed-out cell equal to the content frozen '
             'when it was handed out, (2) the stored content independent of later scribbles on cells the caller handed in, '
-            '(3) reads, rechecks and forgets leaving the stored content untouched, and that each of six deviations seen in '
+            '(3) reads, rechecks and forgets leaving the stored content untouched, and that each of seven deviations seen in '
             'real code (keep the caller\'s object always / only on the first write to an empty object, write in place, '
             'a read that edits its result, a write hook that edits the old value, a write that leaves the caller\'s '
-            'message sharing memory with the old value) violates the matching statement. TLC then prints 30 (quick) / 1000 (thorough) walks of 20-100 steps; '
+            'message sharing memory with the old value, a masked write that cuts down the written message in place) violates the matching statement. TLC then prints 30 (quick) / 1000 (thorough) walks of 20-100 steps; '
             'each is executed on resource.Value, resource.Collection (Get/List/Add/Update/Delete/Pull/PullID, masks, '
             'interceptors, include, id interceptor, equivalence, expected value) and on the public methods of the trait '
             'models listed in the evidence (parent, metadata + its collection, enter/leave, waste, electric, vending, '
@@ -293,7 +293,11 @@ MANIFEST = {
             're-examined after ANY later RPC, including those that add interceptors or callbacks handed the live old '
             'value (relative mode/fan-speed updates, publication acknowledgement). Each walk names its construction '
             '(absent: Value without initial value, empty collection, package defaults; present: initial value / '
-            'records), so the first write to an object that holds nothing is covered. Every message crossing the boundary is cloned at that moment; '
+            'records), so the first write to an object that holds nothing is covered. The written message of a plain write is '
+            'fresh or (spec: WriteFrom/WriteOther, walk field src) one the caller holds from an earlier read, result or '
+            'event of the same or another resource, written with update masks, reset masks and writable fields (pair '
+            'target: a Collection and two Values fed from one another; electric with writable paths on the active mode '
+            'and modes resources, re-selecting the active mode). Every message crossing the boundary is cloned at that moment; '
             'after every later call, scribble or recheck all live handed-out messages (at most 200) are compared with their '
             'clones and the full read-back is digested. Conformance on the generated walks plus bounded model checking of '
             'the design; not a proof. Pointer identity is deliberately not asserted, only change over time.',
